@@ -344,5 +344,117 @@ def r18_5(ctx):
     return r
 
 
+def _lock_call_of(body, op, hops=10):
+    """follow an operand's single-definition chain (copies, refs, derefs, Deref/Clone calls) back to the
+    `remote_addr.read()` / `.write()` call that produced it -> block index of that call, or None"""
+    if op.get("k") not in ("cp", "mv"):
+        return None
+    l = op["p"]["l"]
+    for _ in range(hops):
+        ds = body.defs().get(l, [])
+        if len(ds) != 1:
+            return None
+        d = ds[0]
+        if d[0] == "s":
+            rv = body.blocks[d[1]]["s"][d[2]]["rv"]
+            if rv["r"] == "use" and rv["o"].get("k") in ("cp", "mv"):
+                l = rv["o"]["p"]["l"]
+                continue
+            if rv["r"] in ("ref", "addr", "rawptr"):
+                l = rv["p"]["l"]
+                continue
+            return None
+        t = body.blocks[d[1]]["t"]
+        path = t["f"].get("fn") or ""
+        if path.endswith(("RwLock::<R, T>::read", "RwLock::<R, T>::write")) and t["a"]:
+            a0 = body.term_operand(t["a"][0])
+            if mir.has_field(a0, "remote_addr"):
+                return d[1]
+            return None
+        if path.endswith(("Deref::deref", "DerefMut::deref_mut", "Clone::clone")) and t["a"] and t["a"][0].get("k") in ("cp", "mv"):
+            l = t["a"][0]["p"]["l"]
+            continue
+        return None
+    return None
+
+
+def r18_6(ctx):
+    """forward dataflow over receive(): abstract state = (what remote_addr is known to equal, which earlier
+    reads of remote_addr are still current). A write makes every earlier read stale; `x == <read>` teaches
+    remote_addr == x only while that read is current. At every rtp_latched.store(true) the destination must
+    be one known value on all paths - the committed winner."""
+    r = RuleResult("R18.6", "K2/dataflow", "the latch is set only when the RTP destination is the selected source on every path")
+    body = ctx.body(RECEIVE)
+    r.scope.append(RECEIVE)
+    writes = {}
+    for bi, si, st, val in core.lock_write_sites(body, "remote_addr", methods=("::write",)):
+        writes[bi] = mir.show(val, 80)
+    reads = set()
+    for bi, t, path in body.calls():
+        if path and path.endswith(("RwLock::<R, T>::read", "RwLock::<R, T>::write")) and t["a"] and \
+                mir.has_field(body.term_operand(t["a"][0]), "remote_addr"):
+            reads.add(bi)
+    # comparison blocks: call PartialEq::ne/eq with one operand traced to a read of remote_addr
+    cmp_edges = {}     # (from_switch_block, to_block) -> (snapshot read block, other operand text)
+    for bi, t, path in body.calls():
+        if not path or not path.endswith(("PartialEq::ne", "PartialEq::eq")) or len(t["a"]) != 2:
+            continue
+        ids = [_lock_call_of(body, a) for a in t["a"]]
+        if (ids[0] is None) == (ids[1] is None):
+            continue
+        snap = ids[0] if ids[0] is not None else ids[1]
+        other = body.term_operand(t["a"][1] if ids[0] is not None else t["a"][0])
+        cmp_term = body.term_call(t)
+        for sb in range(len(body.blocks)):
+            info = body.switch_info(sb) if body.blocks[sb]["t"]["k"] == "switch" else None
+            if not info:
+                continue
+            term, outs = info
+            neg = False
+            tt = term
+            if tt[0] == "un" and tt[1] == "Not":
+                tt, neg = tt[2], True
+            if tt != cmp_term:
+                continue
+            for tgt, _, meaning in outs:
+                if not isinstance(meaning, bool):
+                    continue
+                equal = (meaning is path.endswith("::eq")) != neg
+                if equal:
+                    cmp_edges[(sb, tgt)] = (snap, mir.show(other, 80))
+    stores = [x[0] for x in core.atomic_sites(body, "rtp_latched", "store") if x[2][1][0] == "const" and x[2][1][1] == 1]
+    r.need("rtp_latched.store(true) sites", len(stores), 2)
+    r.need("remote_addr writes in receive", len(writes), 3)
+    # fixpoint
+    states = {0: {(None, frozenset())}}
+    work = [0]
+    while work:
+        bi = work.pop()
+        for st in list(states[bi]):
+            val, snaps = st
+            if bi in reads:
+                snaps = snaps | {bi}
+            if bi in writes:
+                val, snaps = writes[bi], frozenset()
+            for tgt, _ in body.succ_edges(bi):
+                v2, s2 = val, snaps
+                ce = cmp_edges.get((bi, tgt))
+                if ce is not None and ce[0] in s2:
+                    v2 = ce[1]
+                new = (v2, s2)
+                if new not in states.setdefault(tgt, set()):
+                    states[tgt].add(new)
+                    work.append(tgt)
+    for sb in stores:
+        vals = sorted(set("unknown" if v is None else v for v, _ in states.get(sb, ())))
+        if len(vals) == 1 and vals[0] != "unknown":
+            r.ok({"site": body.where(sb), "remote_addr_at_latch": vals[0]})
+        else:
+            r.violate(RECEIVE, "store:rtp_latched=true", body.where(sb),
+                      "the latch is committed while the RTP destination may be any of %s: a comparison against a "
+                      "remote_addr value read before an intervening write decides whether the selected source is stored" % vals)
+    return r
+
+
 def run(ctx):
-    return [r18_1(ctx), r18_2(ctx), r18_3(ctx), r18_4(ctx), r18_5(ctx)]
+    return [r18_1(ctx), r18_2(ctx), r18_3(ctx), r18_4(ctx), r18_5(ctx), r18_6(ctx)]
